@@ -43,7 +43,7 @@ def _emit(gen, text, origin=None):
         gen.origin.append(origin)
 
 
-def _emit_fn(gen, root, fn, canary_false=False):
+def _emit_fn(gen, root, fn, canary_false=False, body_assumed=False):
     """canary_false: emit a second copy of the function, renamed <name>__canary and never called, with `ensures false`
     appended (a callee with a false postcondition would make its callers vacuously true, so the original stays as it is)."""
     src = _source(root, fn.file)
@@ -69,7 +69,7 @@ def _emit_fn(gen, root, fn, canary_false=False):
         sig = re.sub(r'\bfn\s+%s\b' % re.escape(fn.name), 'fn %s__canary' % fn.name, sig, count=1)
     key = '%s::%s::%s%s' % (fn.file, fn.scope or '', fn.name, '#canary' if canary_false else '')
     body_orig = d['body']
-    if fn.external_body:
+    if fn.external_body or (body_assumed and not canary_false):
         body = '{ unimplemented!() }'
         fired.append('R9 body not extracted (external_body, contract assumed)')
     else:
@@ -123,7 +123,9 @@ def _emit_fn(gen, root, fn, canary_false=False):
     start = len(gen.lines) + 1
     for a in fn.attrs:
         _emit(gen, a, (key, fn.file, d['line'], True))
-    if fn.external_body:
+    if fn.external_body or (body_assumed and not canary_false):
+        # body_assumed: in the vacuity (canary) file the ORIGINAL functions are not verified again (that is the normal run's job); only their
+        # contracts are used by the `__canary` copies.  Keeps the canary run small and free of resource-limit noise in functions it does not test.
         _emit(gen, '#[verifier::external_body]', (key, fn.file, d['line'], True))
     sig_lines = sig.rstrip().split('\n')
     for i, ln in enumerate(sig_lines):
@@ -388,7 +390,7 @@ def generate(unit, root, canary=False):
                 walk(it.items)
                 _emit(gen, '}')
             elif isinstance(it, Fn):
-                _emit_fn(gen, root, it)
+                _emit_fn(gen, root, it, body_assumed=canary)
                 if canary and it.canary:
                     _emit_fn(gen, root, it, canary_false=True)
             else:
